@@ -296,6 +296,19 @@ fn alphabets(seed: u64) -> (Vec<El>, Vec<usize>, Vec<usize>) {
         push(&mut full, El::IntGen { w, signed: true, v: smax(w) }, false, false);
         push(&mut full, El::IntGen { w, signed: true, v: -1 }, w == 3 || w == 8, false);
     }
+    // values much narrower than their field, and values around the 64-bit machine-word boundaries,
+    // in fields on both sides of 64 bits (the packer and the literal encoder both have word-sized paths)
+    for &w in &[9usize, 16, 33, 64, 65, 72, 100, 127, 128] {
+        let cands: [i128; 8] = [1, 0x1234, (1i128 << 63) - 1, 1i128 << 63, (1i128 << 64) - 1, 1i128 << 64, -(1i128 << 63) - 1, -(1i128 << 64)];
+        for (vi, &v) in cands.iter().enumerate() {
+            if w <= 127 && v >= 0 && v <= umax(w) {
+                push(&mut full, El::IntGen { w, signed: false, v }, (w == 65 && vi == 0) || (w == 72 && vi == 4), false);
+            }
+            if v >= smin(w) && v <= smax(w) {
+                push(&mut full, El::IntGen { w, signed: true, v }, (w == 128 && vi == 0) || (w == 72 && vi == 3) || (w == 100 && vi == 6), false);
+            }
+        }
+    }
     for &w in &[8usize, 16, 32, 64] {
         for mode in [Mode::Cur, Mode::Le, Mode::Be] {
             let qu = (w == 16 && mode == Mode::Le) || (w == 64 && mode == Mode::Cur);
